@@ -1,8 +1,8 @@
 //go:build verif
 
-package sumvec
+package sumvec_test
 
-// C19 for Prio3SumVec. Generic machinery: vdaf/prio3/internal/verifc19 (overlay only); oracles: verifref/prio.
+// C19, exported-API units (package sumvec_test: the compiler guarantees nothing unexported is named) for Prio3SumVec. Generic machinery: vdaf/prio3/internal/verifc19 (overlay only); oracles: verifref/prio.
 
 import (
 	"fmt"
@@ -10,19 +10,14 @@ import (
 
 	"github.com/cloudflare/circl/internal/verifmc"
 	"github.com/cloudflare/circl/internal/verifref/prio"
-	"github.com/cloudflare/circl/vdaf/prio3/internal/prio3"
 	"github.com/cloudflare/circl/vdaf/prio3/internal/verifc19"
+	"github.com/cloudflare/circl/vdaf/prio3/sumvec"
 )
 
-// c19Evil shares an arbitrary encoded measurement with the real proof system.
-type c19Evil struct{ *flpSumVec }
-
-func (c19Evil) Encode(v Vec) (Vec, error) { return append(Vec{}, v...), nil }
-
-func c19Sys() *verifc19.Sys[[]uint64, []uint64, Vec, Fp] {
-	return &verifc19.Sys[[]uint64, []uint64, Vec, Fp]{
-		Make: func(i prio.Inst, n uint8) (verifc19.VDAF[[]uint64, []uint64, Vec, Fp], error) {
-			s, err := New(n, i.Length, i.Bits, i.Chunk, verifc19.Ctx)
+func c19Sys() *verifc19.Sys[[]uint64, []uint64, sumvec.Vec, sumvec.Fp] {
+	return &verifc19.Sys[[]uint64, []uint64, sumvec.Vec, sumvec.Fp]{
+		Make: func(i prio.Inst, n uint8) (verifc19.VDAF[[]uint64, []uint64, sumvec.Vec, sumvec.Fp], error) {
+			s, err := sumvec.New(n, i.Length, i.Bits, i.Chunk, verifc19.Ctx)
 			if err != nil {
 				return nil, err
 			}
@@ -31,20 +26,9 @@ func c19Sys() *verifc19.Sys[[]uint64, []uint64, Vec, Fp] {
 			}
 			return s, nil
 		},
-		MakeEvil: func(i prio.Inst, n uint8) (verifc19.EvilSharder[Vec, Fp], error) {
-			f, err := newFlpSumVec(i.Length, i.Bits, i.Chunk)
-			if err != nil {
-				return nil, err
-			}
-			p, err := prio3.New[c19Evil, Vec, []uint64, Vec, Fp, *Fp](c19Evil{f}, 3, n, verifc19.Ctx)
-			if err != nil {
-				return nil, err
-			}
-			return &p, nil
-		},
 		ToM:   func(m []uint64) []uint64 { return append([]uint64{}, m...) },
 		FromA: func(a *[]uint64) []uint64 { return *a },
-		Order: new(Fp).Order(),
+		Order: new(sumvec.Fp).Order(),
 	}
 }
 
